@@ -141,6 +141,12 @@ def _one_request(case, cfg, ta, ld, models, ranks_ok, res) -> bool:  # noqa: ANN
     if cfg["stream_sel"] < 0.4 and common:
         k = max(1, int(cfg["stream_sel"] * 2.5 * len(common)))
         streams = common[:k]
+    elif 0.4 <= cfg["stream_sel"] < 0.6 and all_streams:
+        # streams named explicitly that not every requested rank uses (and, sometimes, one that nobody uses, listed first): a
+        # rank without kernels on a stream has no rows for it, and its other streams are reported as usual
+        streams = ([999] if int(cfg["stream_sel"] * 1000) % 3 == 0 else []) + all_streams
+        if any(s not in _streams(ld.kept[r]) for r in ranks for s in streams):
+            res.counters["requests_naming_a_stream_some_rank_lacks"] += 1
     ok, out = drv.guard(res, "get_idle_time_breakdown", ta.get_idle_time_breakdown, ranks=ranks, streams=streams, visualize=False,
                         consecutive_kernel_delay=thr, **({"show_idle_interval_stats": True} if cfg.get("stats") else {}))
     if not ok:
